@@ -3,6 +3,14 @@ NOTES = ("All checks explore the real implementation (NumPy backend) exhaustivel
          "no TLA+/Promela model is used (see DESIGN.md). VERIF_SEED selects only the integer data alphabet.")
 NOT_APPLICABLE = {}
 CHECKS = {
+ 'C02': dict(category='model_checking', design_ref='DESIGN.md §2 C02',
+   technique='explicit-state breadth-first search over sequences of public operations on the real implementation (state hash = all fields of the tensor object), invariant monitors on every produced tensor',
+   text='BFS to depth 2 (quick) / 3 (thorough) from ~28 seed tensors per symmetry (7 symmetries, ranks 0..6, charged/uncharged, missing blocks, diagonal, lazily transposed) over ~70-100 enabled actions per state (unary algebra, fusion hard/meta/unfuse, svd/qr/eigh/truncation, tensordot/ncon/block with derived partners). Every produced tensor is checked by is_consistent(), by an independent well-formedness predicate built on a reference group law, and against the charge the algebra dictates. All reachable states within the depth are covered.',
+   note='Trusted: the reading of the Tensor data structure in models/wf.py and the reference group law. Depth <= 3; the explorer acts on the real objects so there is no model/implementation gap (traces_validated_against_impl = transitions).'),
+ 'C15': dict(category='model_checking', design_ref='DESIGN.md §2 C15',
+   technique='explicit-state BFS over operation sequences with byte snapshots of receiver, arguments and live ancestors around every call; exhaustive aliasing histories (creator x in-place operation x side)',
+   text='Every call made by the explorer (BFS alphabet plus ~55 observer calls per expanded state, incl. dict/list arguments) is bracketed by canonical byte snapshots of all arguments and of all ancestors that may share storage; copy()/clone() independence is checked in both directions for every creator and every documented in-place operation; view creators are allowed to alias. Uncovered public API members are listed in the evidence.',
+   note='Snapshot covers every attribute of Tensor (self-test fails on a new attribute). Containers (MPS/PEPS/environments) are covered by the container section when present in the evidence counters.'),
  'C01': dict(category='exploration', design_ref='DESIGN.md §2 C01',
    technique='exhaustive product enumeration of operand structures (symmetry, signature, sector sets, charge, absent blocks, lazy/materialised permutation) x operation x arguments, compared bitwise with NumPy on ground-truth dense arrays',
    text='Every public algebra operation (unary catalogue, tensordot/@, vdot, add/sub/add(), broadcast, apply_mask, diagonal operands, trace, diag, add/remove_leg, ncon/einsum over a complete catalogue of small networks and all contraction orders) is executed on every operand combination of a bounded structural alphabet in all 7 symmetries and 2 dtypes; the result is read back through block access and through to_numpy and compared bitwise with the same NumPy operation on dense ground truth (integer data). Exhaustive inside the alphabet; it is a coverage statement, not a proof.',
